@@ -46,6 +46,10 @@ def configs(tier, seed):
         out.append(dict(name="homo nt=%d sizes=%s" % (nt, sizes), h="homo", nt=nt, sizes=list(sizes)))
     out.append(dict(name="scorer nt=3 sizes=(1,2)", h="scorer", nt=3, sizes=[1, 2]))
     out.append(dict(name="scorer nt=4 sizes=(2,1,3)", h="scorer", nt=4, sizes=[2, 1, 3]))
+    # predicted means that are exactly zero
+    out.append(dict(name="homo nt=3 sizes=(1,2) exact-zero means", h="homo", nt=3, sizes=[1, 2], zero_means=True))
+    out.append(dict(name="hetero nt=3 sizes=(1,2) exact-zero means", h="hetero", nt=3, sizes=[1, 2], order="id", zero_means=True))
+    out.append(dict(name="scorer nt=3 sizes=(1,2) exact-zero means", h="scorer", nt=3, sizes=[1, 2], zero_means=True))
     # the triple budget exactly C(n,3) (every triple still enumerated once)
     out.append(dict(name="hetero nt=4 sizes=(2,1) budget = C(4,3)", h="hetero", nt=4, sizes=[2, 1], order="id", budget="exact"))
     out.append(dict(name="homo nt=4 sizes=(2,1) budget = C(4,3)", h="homo", nt=4, sizes=[2, 1], budget="exact"))
@@ -115,7 +119,7 @@ def _budget(cfg, nt):
     return math.comb(nt, 3) if cfg.get("budget") == "exact" else 10 ** 6
 
 
-def _inputs(ctx, nt, sizes):
+def _inputs(ctx, nt, sizes, cfg=None):
     means = [[[ctx.real("m%d_%d_%d" % (p, t, e)) for e in range(sz)] for t in range(nt)] for p, sz in enumerate(sizes)]
     vars_ = [[[ctx.real("v%d_%d_%d" % (p, t, e), positive=True) for e in range(sz)] for t in range(nt)] for p, sz in enumerate(sizes)]
     dist = [[0.0] * nt for _ in range(nt)]
@@ -123,6 +127,20 @@ def _inputs(ctx, nt, sizes):
         for j in range(i):
             d = ctx.real("d%d_%d" % (i, j), nonneg=True)
             dist[i][j] = dist[j][i] = d
+    if cfg is not None and cfg.get("zero_means"):
+        # predicted means that are exactly 0 (a control well, a rounded grid): the first experiment of every plate for the
+        # first and last posterior sample.  The other inputs are kept away from the degenerate values a solver likes best
+        # (zero distances, unit variances) so that a counterexample says something.
+        for p in range(len(sizes)):
+            means[p][0][0] = 0.0
+            means[p][nt - 1][0] = 0.0
+        for i in range(nt):
+            for j in range(i):
+                ctx.assume(dist[i][j] > 0, "positive distances")
+        for p in range(len(sizes)):
+            for t in range(nt):
+                for v in vars_[p][t]:
+                    ctx.assume(ctx.Or(v > 2, v < 0.5), "variances away from 1")
     return means, vars_, dist
 
 
@@ -195,7 +213,7 @@ def h_hetero(ctx, cfg):
     np = ctx.np
     gd = ctx.mod("batchie.scoring.gaussian_dbal")
     nt, sizes, order = cfg["nt"], cfg["sizes"], cfg["order"]
-    means, vars_, dist = _inputs(ctx, nt, sizes)
+    means, vars_, dist = _inputs(ctx, nt, sizes, cfg)
     D = np.array(dist, dtype=float)
     M = [np.array(m, dtype=float) for m in means]
     V = [np.array(v, dtype=float) for v in vars_]
@@ -237,8 +255,12 @@ def h_homo(ctx, cfg):
     np = ctx.np
     gd = ctx.mod("batchie.scoring.gaussian_dbal")
     nt, sizes = cfg["nt"], cfg["sizes"]
-    means, _, dist = _inputs(ctx, nt, sizes)
+    means, _, dist = _inputs(ctx, nt, sizes, cfg)
     hv = [[ctx.real("hv%d_%d" % (p, t), positive=True) for t in range(nt)] for p in range(len(sizes))]
+    if cfg.get("zero_means"):
+        for row in hv:
+            for v in row:
+                ctx.assume(ctx.Or(v > 2, v < 0.5), "variances away from 1")
     D = np.array(dist, dtype=float)
     M = [np.array(m, dtype=float) for m in means]
     vv_all = [[[hv[p][t]] * sz for t in range(nt)] for p, sz in enumerate(sizes)]
@@ -281,7 +303,7 @@ def h_scorer(ctx, cfg):
     core = ctx.mod("batchie.core")
     dc = ctx.mod("batchie.distance_calculation")
     nt, sizes = cfg["nt"], cfg["sizes"]
-    means, vars_, dist = _inputs(ctx, nt, sizes)
+    means, vars_, dist = _inputs(ctx, nt, sizes, cfg)
     total = sum(sizes)
     holder = core.ThetaHolder(n_thetas=nt)
     for t in range(nt):
